@@ -412,4 +412,64 @@ def extract_clone_kind(repo):
     return lean, {"clone_kind": kind, "term_escapes": escapes, "unsafe_sites_index_rs": n_unsafe}
 
 
-EXTRACTORS = {"clone_kind": ("CloneKind.lean", extract_clone_kind)}
+# ------------------------------------------------------------------ mownstr: what the ownership model assumes about `MownStr`
+
+MOWN_PINS = {
+    "out_of_line": ["pubstructMownStr<'a>{addr:NonNull<u8>,xlen:usize,_phd:PhantomData<&'astr>,}"],
+    "clone_borrowed_copies_pointer": ["implCloneforMownStr<'_>{fnclone(&self)->Self{ifself.is_owned(){Box::<str>::from(&**self).into()}"
+                                      "else{MownStr{addr:self.addr,xlen:self.xlen,_phd:self._phd,}}}}"],
+    "drop_releases_owned_only": ["implDropforMownStr<'_>{fndrop(&mutself){ifself.is_owned(){unsafe{std::mem::drop(self.extract_box());}}}}",
+                                 "pubconstfnis_owned(&self)->bool{(self.xlen&OWN_FLAG)==OWN_FLAG}"],
+    "from_box_takes_the_buffer": ["implFrom<Box<str>>forMownStr<'_>{fnfrom(other:Box<str>)->Self{letlen=other.len();debug_assert!(len<=LEN_MASK);"
+                                  "letaddr=Box::leak(other).as_mut_ptr();",
+                                  "letxlen=len|OWN_FLAG;MownStr{addr,xlen,_phd:PhantomData,}}}",
+                                  "implFrom<String>forMownStr<'_>{fnfrom(other:String)->Self{other.into_boxed_str().into()}}"],
+    "borrowed_is_a_pointer_copy": ["pubconstfnborrowed(&self)->MownStr{MownStr{addr:self.addr,xlen:self.xlen&LEN_MASK,_phd:PhantomData,}}"],
+}
+
+
+def extract_mownstr_shape(repo):
+    """The Lean model reads `MownStr` as: pointer + length + ownership bit, the bytes live OUT OF LINE (moving the
+    struct — table growth, Vec reallocation, moves — never moves them); `Clone` of a borrowed one copies the
+    pointer, of an owned one copies the bytes into a fresh buffer; `Drop` releases the buffer only when owned;
+    `From<Box<str>>` / `From<String>` take the buffer over without copying.  Each of these is recognised in the
+    source of the mownstr version the harness is locked to (vendored registry); anything else fails closed."""
+    import glob
+    import os
+    lock = os.path.join(os.path.dirname(os.path.dirname(os.path.dirname(os.path.abspath(__file__)))), "harness", "props", "c10", "Cargo.lock")
+    ver = None
+    if os.path.exists(lock):
+        m = re.search(r'name = "mownstr"\s*\nversion = "([^"]+)"', open(lock).read())
+        ver = m.group(1) if m else None
+    home = os.environ.get("CARGO_HOME") or os.path.expanduser("~/.cargo")
+    cands = sorted(glob.glob(os.path.join(home, "registry", "src", "*", "mownstr-%s" % (ver or "0.3.*"), "src", "lib.rs")))
+    if len(cands) != 1:
+        raise ExtractError("mownstr: %d candidate sources for version %r under %s/registry/src" % (len(cands), ver, home))  # noqa: F821
+    text = open(cands[0], encoding="utf-8").read()
+    code = _norm(_strip_cfg(_nocomment(text), "mownstr"))
+    flags = {}
+    for k, pins in MOWN_PINS.items():
+        flags[k] = all(p_ in code for p_ in pins)
+        if not flags[k]:
+            raise ExtractError("mownstr %s (%s): `%s` is not recognised in the source" % (ver, cands[0], k))  # noqa: F821
+    # the dependency of /repo must admit that version
+    cargo = read(repo, "Cargo.toml")  # noqa: F821
+    if not re.search(r'^mownstr\s*=\s*"0\.3"', cargo, flags=re.M):
+        raise ExtractError("Cargo.toml: the workspace no longer depends on mownstr 0.3")  # noqa: F821
+    b = lambda k: str(flags[k]).lower()  # noqa: E731
+    lean = (HEADER  # noqa: F821
+            + "import SophiaModel.Model.Heap\n"
+            + "namespace SophiaModel.Gen\n\n"
+            + "/-- what the source of mownstr %s (the version the harness is locked to) says about `MownStr`,\n" % (ver or cands[0].split("mownstr-")[1].split("/")[0])
+            + "recognised fragment by fragment by tools/extractors/c10.py -/\n"
+            + "def mownStr : SophiaModel.Heap.MownStrShape :=\n"
+            + "  { outOfLine := %s, cloneBorrowedCopiesPointer := %s, dropReleasesOwnedOnly := %s,\n" % (
+                b("out_of_line"), b("clone_borrowed_copies_pointer"), b("drop_releases_owned_only"))
+            + "    fromBoxTakesTheBuffer := %s, borrowedIsPointerCopy := %s }\n\n" % (
+                b("from_box_takes_the_buffer"), b("borrowed_is_a_pointer_copy"))
+            + "end SophiaModel.Gen\n")
+    return lean, {"mownstr_version": ver, "source": cands[0]}
+
+
+EXTRACTORS = {"clone_kind": ("CloneKind.lean", extract_clone_kind),
+              "mownstr_shape": ("MownStrShape.lean", extract_mownstr_shape)}
